@@ -45,6 +45,7 @@ type ReplayInfo struct {
 	Fn      *ssa.Function
 	Params  []Val
 	MemBV8  string // name of the entry byte memory constant ("" if the function never touched it)
+	ModelDependent bool // the function's behaviour is partly abstracted (assumed contracts, ghost state)
 	Results int
 }
 
@@ -287,7 +288,7 @@ func (e *Engine) replay(ob *Obligation, dir string) *ReplayResult {
 	// predicted results (post obligations): integers, booleans, and whether an error is nil
 	nparamTerms := len(terms)
 	resKinds := []string{}
-	predictable := ob.Kind == "post" && len(ob.ResultVals) == fn.Signature.Results().Len() && len(ob.ResultVals) > 0
+	predictable := ob.Kind == "post" && !ri.ModelDependent && len(ob.ResultVals) == fn.Signature.Results().Len() && len(ob.ResultVals) > 0
 	if predictable {
 		for i, r := range ob.ResultVals {
 			rt := fn.Signature.Results().At(i).Type()
